@@ -31,6 +31,23 @@ Section C11.
       load_stats text bytes load st (dump_stats text bytes dump st get_stats f w) f = Some (snap w).
   Proof. exact (roundtrip text bytes dump load load_dump st get_stats). Qed.
 
+  (* ...at the moment of EVERY write, whatever the history of that path: earlier dumps of
+     this profiler, dumps of other profilers / processes (foreign writes), deletions. *)
+  Theorem C11_roundtrip_any_history :
+    forall (hs : list (hstep text bytes st)) (w : world) (f : Z),
+      let w' := hrun text render bytes dump load st get_stats hs w in
+      load_stats text bytes load st (dump_stats text bytes dump st get_stats f w') f = Some (snap w').
+  Proof. exact (roundtrip_any_history text render bytes dump load load_dump st get_stats). Qed.
+
+  (* dump; someone else writes the file; dump again with nothing new recorded: own statistics *)
+  Theorem C11_redump_after_foreign_write :
+    forall (w : world) (f : Z) (c : content text bytes),
+      load_stats text bytes load st
+        (dump_stats text bytes dump st get_stats f
+           (write_file text bytes st f c (dump_stats text bytes dump st get_stats f w))) f
+      = Some (snap w).
+  Proof. exact (redump_after_foreign_write text bytes dump load load_dump st get_stats). Qed.
+
   (* Each channel's text is `render snapshot (opts_of channel)` for the snapshot of
      the state it was called in; the files it writes load back to that snapshot. *)
   Theorem C11_channels_same_snapshot :
